@@ -1954,6 +1954,9 @@ class Obj(Container):
                 ))
             elif name == tensor_names.coulomb:  # ERI in chemist notation
                 return ("aaaa", "aabb", "bbaa", "bbbb")
+            elif name == tensor_names.fock and len(obj.idx) == 2:
+                # the fock matrix is diagonal in the spin
+                return ("aa", "bb")
         elif isinstance(obj, KroneckerDelta):  # delta
             # spins have to be equal
             return ("aa", "bb")
